@@ -138,25 +138,35 @@ theorem import_export_full_fails : ¬ import_export_full := by
 
 /-! ### the other import entry points: `ImportUint` (all four Go widths), `ImportBytes`, `ExportUint64` -/
 
-/-- `ImportUint` lays the value out faithfully: the bytes denote the value, whatever the width … -/
-theorem importUint_value (w v : Nat) (optBits : Int) (hv : v < 2 ^ w) (hw : w % 8 = 0) :
-    valOf (importUint w v optBits).bytes = v := valOf_importUint optBits hv hw
+/-- `ImportUint` lays the value out faithfully: without a positive width option the bytes denote the
+    value … -/
+theorem importUint_value (w v : Nat) (optBits : Int) (hob : optBits ≤ 0) (hv : v < 2 ^ w) (hw : w % 8 = 0) :
+    valOf (importUint w v optBits).bytes = v := valOf_importUint hob hv hw
+
+/-- … with a positive width `n` (repaired behaviour, repo_patches/C08-importuint-width.diff) the number
+    holds exactly `n` bits: the value reduced mod 2^n, in ⌈n/8⌉ bytes, width field `n` — so no exporter
+    can index past the slice or print more digits than the width -/
+theorem importUint_value_override (w v : Nat) (optBits : Int) (h : 0 < optBits) :
+    valOf (importUint w v optBits).bytes = v % 2 ^ optBits.toNat ∧
+    (importUint w v optBits).bytes.length = (optBits.toNat + 7) / 8 ∧
+    (importUint w v optBits).bits = optBits.toNat := valOf_importUint_override w v h
 
 /-- … `ExportUint64` returns it … -/
-theorem exportUint64_importUint (w v : Nat) (optBits : Int) (hv : v < 2 ^ w) (hw : w % 8 = 0) (h64 : w ≤ 64) :
-    exportUint64 (importUint w v optBits) = some v :=
-  BMV.Numbers.exportUint64_importUint optBits hv hw h64
+theorem exportUint64_importUint (w v : Nat) (optBits : Int) (hob : optBits ≤ 0) (hv : v < 2 ^ w)
+    (hw : w % 8 = 0) (h64 : w ≤ 64) : exportUint64 (importUint w v optBits) = some v :=
+  BMV.Numbers.exportUint64_importUint hob hv hw h64
 
 /-- … a `uint64` round-trips exactly through the text form … -/
 theorem import_export_importUint64 (v : Nat) (hv : v < 2 ^ 64) :
     (exportString (importUint 64 v 0)).bind importString = some (importUint 64 v 0) :=
   roundtrip_unsigned64 _ (importUint64_wf hv)
 
-/-- … and a `uint8/16/32` (or an `optionalBits` override) comes back with the same value but 64 bits
+/-- … and a `uint8/16/32` comes back with the same value but 64 bits
     (the listed finding `C08-unsigned-sized-width-lost`) -/
-theorem import_export_importUint_value (w v : Nat) (optBits : Int) (hv : v < 2 ^ w) (hw : w % 8 = 0) (h64 : w ≤ 64) :
+theorem import_export_importUint_value (w v : Nat) (optBits : Int) (hob : optBits ≤ 0) (hv : v < 2 ^ w)
+    (hw : w % 8 = 0) (h64 : w ≤ 64) :
     (exportString (importUint w v optBits)).bind importString = some ⟨toBytesLE 8 v, 64, .unsigned⟩ :=
-  importUint_reimport optBits hv hw h64
+  importUint_reimport hob hv hw h64
 
 /-- the width field: `optionalBits` overrides only when positive; 0 and the negative 'any size'
     sentinel (`GetSize() = -1` of unsigned / signed / hex / bin, which the simulator's show path passes)
@@ -257,6 +267,10 @@ example : importString (ofString "0u<8>255") = some ⟨[255], 8, .unsigned⟩ :=
 example : importString (ofString "0u<8>256") = none := by decide +kernel
 example : exportStringSpec ⟨[255, 255, 255, 255, 255, 255, 255, 255], 64, .signed⟩ = some (ofString "0s-1") := by
   decide +kernel
+example : exportStringSpec ⟨[255], 8, .signed⟩ = some (ofString "0s-1") := by decide +kernel
+example : exportStringSpec ⟨[127], 8, .signed⟩ = some (ofString "0s127") := by decide +kernel
+example : importUint 8 0xAB 32 = ⟨[0xAB, 0, 0, 0], 32, .unsigned⟩ := by decide +kernel
+example : importUint 64 0x0102030405060708 12 = ⟨[8, 7], 12, .unsigned⟩ := by decide +kernel
 example : exportBinaryNBits ⟨[5], 5, .bin⟩ 8 = some (ofString "00000101") := by decide +kernel
 example : exportBinaryNBits ⟨[5], 5, .bin⟩ 2 = none := by decide +kernel
 example : exportVerilogBinary ⟨[5], 5, .bin⟩ = ofString "5'b00101" := by decide +kernel
